@@ -3,7 +3,6 @@
 -/
 import CosetProofs.Structures
 import CosetModel.Builders
-import CosetProofs.Ties
 namespace Coset.Props.C05
 open Coset Coset.Cbor Coset.Spec
 
@@ -76,14 +75,6 @@ example : encStructureData .coseEncrypt0 (.mk (some [0xa1, 0x01, 0x01]) Header.d
     .ok [0x83, 0x68, 69, 110, 99, 114, 121, 112, 116, 48, 0x43, 0xa1, 0x01, 0x01, 0x41, 9] := by decide
 
 
-/-! ### ties to the source text (regenerated on every run, compared in the kernel with the transcribed tree) -/
-/-- which context constant each helper passes to which structure function. -/
-theorem tie_context_routing : Coset.Gen.contextRouting = Coset.Pinned.contextRouting := Coset.Ties.context_routing
-/-- the set of contexts the recipient operations let through. -/
-theorem tie_recipient_guards : Coset.Gen.recipientGuards = Coset.Pinned.recipientGuards := Coset.Ties.recipient_guards
-
-#print axioms tie_context_routing
-#print axioms tie_recipient_guards
 #print axioms contexts
 #print axioms contexts_distinct
 #print axioms enc_structure
